@@ -8,7 +8,7 @@ usage: mutant_farm.py [--tier quick] [--props C01,C02 | --own] <seed-id>...
 """
 import json, os, shutil, subprocess, sys
 ROOT = "/verif"
-FARM = "/tmp/mut"
+FARM = os.environ.get("FARM", "/tmp/mut")
 
 def sh(cmd, **kw):
     return subprocess.run(cmd, stdout=subprocess.PIPE, stderr=subprocess.STDOUT, text=True, **kw)
@@ -33,7 +33,7 @@ def main():
         r = sh(["patch", "-p1", "-s", "-i", os.path.join(ROOT, "seeded", sid, "patch.diff")], cwd=d + "/repo")
         if r.returncode != 0:
             print("%s: patch failed: %s" % (sid, r.stdout[-300:])); continue
-        sh(["rsync", "-a", "--exclude", "target*", ROOT + "/harness/", d + "/harness/"])
+        sh(["rsync", "-a", "--exclude", "target*", os.environ.get("HARNESS_SRC", ROOT + "/harness") + "/", d + "/harness/"])
         ct = open(d + "/harness/Cargo.toml").read().replace('path = "/repo"', 'path = "%s/repo"' % d)
         open(d + "/harness/Cargo.toml", "w").write(ct)
         env = dict(os.environ, RUSTFLAGS="--cfg similar_verif", CARGO_NET_OFFLINE="true", CARGO_TARGET_DIR=FARM + "/target")
